@@ -230,3 +230,29 @@ contract(
     props=("C14",), domain="skip",
     canaries=[("wrong_column", 'segarr["cn"]', 'segarr["probes"]')],
 )
+
+
+# ----------------------------------------------------------------------------- deductive: what one merged run becomes
+# (the grouping of rows into runs by pandas groupby stays with the bounded contracts; this is the per-run reduction,
+#  for every run length: the "conserve what they merge" clause)
+_GRP = TabT(opt=("probes", "depth", "cn", "p_bintest"), index="any", chromosome=CHROM, start=Int, end=Int, gene=GENE,
+            log2=Real, probes=Int, weight=Real, depth=Real, cn=Int, p_bintest=Real)
+
+contract(
+    "cnvlib/segfilters.py::squash_region",
+    params=dict(cnarr=_GRP), returns=TabT(index="range"),
+    requires=["len(cnarr) >= 1", "forall(0, len(cnarr), lambda k: cnarr.weight[k] >= 0)"],
+    ensures=[
+        ("one_row", "len(result) == 1"),
+        ("span", "result.chromosome[0] == cnarr.chromosome[0] and result.start[0] == cnarr.start[0] and "
+                 "result.end[0] == cnarr.end[len(cnarr) - 1]"),
+        ("sums_conserved", "result.weight[0] == sumof(cnarr.weight) and "
+                           "result.probes[0] == (sumof(cnarr.probes) if 'probes' in cnarr else len(cnarr))"),
+        ("weight_averaged_log2", "result.log2[0] == ite(sumof(cnarr.weight) > 0, "
+                                 "sumof(Vec(len(cnarr), lambda k: cnarr.log2[k] * cnarr.weight[k])) / sumof(cnarr.weight), "
+                                 "sumof(cnarr.log2) / len(cnarr))"),
+    ],
+    props=("C14",), domain="skip",
+    canaries=[("last_start", 'cnarr["end"].iat[-1]', 'cnarr["end"].iat[0]'),
+              ("unweighted", 'out["log2"] = np.average(cnarr["log2"], weights=cnarr["weight"])', 'out["log2"] = np.mean(cnarr["log2"])')],
+)
